@@ -107,10 +107,12 @@ def run(prop, tier, replay=None):
         run_driver("drv_store", ["--scenarios", nscn, "--out", t4, "--work", os.path.join(w, "runs_node"), "--nk", 4, "--nv", 2, "--max", 99, "--cache", 25,
                                  "--via-node", "--random", 600 if thorough else 40, "--steps", 60, "--crash", 100 if prop == "C02" else 30, "--cuts", 400 if thorough else 10], w, timeout=3000)
         runs.append((t4, "RecordStoreTrace_node.cfg"))
-    if prop == "C10" and not replay:
-        # clean-up at the REAL threshold: 1636 (1635) filler records + model keys
+    if prop in ("C10", "C02") and not replay:
+        # clean-up at the REAL threshold: 1636 (1635) filler records + model keys; what follows an effective clean-up
+        # (its deletes, a restart, a second range and clean-up, a put) is varied -- C02 judges the restarts of these runs
         t3 = os.path.join(w, "trace_padded.ndjson")
-        run_driver("drv_store", ["--out", t3, "--work", os.path.join(w, "runs_pad"), "--padded", 400 if thorough else 40], w, timeout=3000)
+        npad = (400 if thorough else 40) if prop == "C10" else (160 if thorough else 16)
+        run_driver("drv_store", ["--out", t3, "--work", os.path.join(w, "runs_pad"), "--padded", npad], w, timeout=3000)
         runs.append((t3, "RecordStoreTrace_padded.cfg"))
     kfs = {k["id"]: k for k in kf_for(prop)}
     all_steps = 0
@@ -132,7 +134,7 @@ def run(prop, tier, replay=None):
             steps = []
             for e in events[s + 1:line]:
                 if e["ev"] != "Skipped":
-                    steps.append({k: e[k] for k in ("ev", "k", "v", "rg", "t", "n")})
+                    steps.append({k: e.get(k, 0) for k in ("ev", "k", "v", "rg", "rv", "t", "n")})
             return steps
 
         for x in rep["violations"]:
@@ -160,11 +162,16 @@ def run(prop, tier, replay=None):
         all_steps += len(steps)
         nruns += sum(1 for e in events if e["ev"] == "Reset")
         for e in steps:
-            if e["ev"] in ("PutVerified", "Remove", "RunTask", "HandleNote", "Cleanup", "Quote", "PaymentReceived", "Restart"):
-                distinct.add(json.dumps([cfg, e["ev"], e["k"], e["v"], e["t"], e["n"], e["res"], e["idx"], e["rb"], e["tasks"], e["notes"]], sort_keys=True))
+            if e["ev"] in ("PutVerified", "Remove", "RunTask", "HandleNote", "Cleanup", "Quote", "PaymentReceived", "Restart", "SetRange"):
+                distinct.add(json.dumps([cfg, e["ev"], e["k"], e["v"], e["t"], e["n"], e["res"], e["idx"], e["rb"], e["tasks"], e["notes"], e.get("ty"), e.get("range"), e.get("rv")], sort_keys=True))
         if not samples:
             samples = [scenario_of(len(events))[:8]] + [{k: e[k] for k in ("ev", "k", "v", "t", "n", "res", "idx", "byDist", "far", "cache", "files", "rb", "tasks", "notes", "src")} for e in steps[:3]]
         v.cov.setdefault("impl_stats", []).append(rep.get("stats"))
+        st = rep.get("stats") or {}
+        # allowed by C10 as stated ("a record it does not yet hold"), counted: a put at capacity of a key ALREADY held evicted the farthest record
+        v.cov["held_key_put_evicted_farthest"] = v.cov.get("held_key_put_evicted_farthest", 0) + st.get("heldEvict", 0)
+        v.cov["listed_types_judged"] = {k: v.cov.get("listed_types_judged", {}).get(k, 0) + st.get(k, 0) for k in ("listedC", "listedS", "listedN", "scratchAsN")}
+        v.cov["stale_type_not_judged"] = v.cov.get("stale_type_not_judged", 0) + st.get("staleType", 0)
     v.cov["evaluations"] = all_steps
     v.cov["distinct_nontrivial"] = len(distinct)
     v.cov["traces_validated_against_impl"] = nruns
